@@ -8,6 +8,8 @@ from .. import bits, fields, paths
 from ..core import FUNC, call_attr, calls_in, const, dotted, is_const, kwarg, norm, slice_parts, text, walk_local
 
 EXPLANATION = [
+    'C19.free-label: Protocol.start_transaction stores a new future into transaction_results[label] only under the test that this slot is None.',
+    'C19.shift-amount: no shift in the profile protocol modules has an amount that contains a data element (`hi << 16 + lo` for `hi << 16 | lo`).',
     'C19.transaction-permits: every statement of avdtp.Protocol that clears a transaction slot releases the transaction semaphore in the same block: a refused command returns its permit like an accepted one.',
     'C19.avctp-restart: in the AVCTP assembler no path stores the packet count of a START packet and then runs the reset that abandons an earlier message while it goes on assembling: a broken sequence costs only the old message.',
     'C19.sdp-containment: (shared with C17) DataElementParser records the end of the sequence being parsed, refuses an element that ends past it, and puts the outer bound back on every exit of the nested parse (path rule): an empty nested sequence does not leave a stale, too small bound for the siblings that follow.',
@@ -705,7 +707,32 @@ def transaction_permits(ctx):
     R.check(n >= 1, rule, 'bumble.avdtp.Protocol | transaction slots', f'{n} clearing site(s)', 'no site clears a transaction slot')
 
 
+def shift_amount_rule(ctx):
+    from ..generic_rules import shift_amount_data
+    shift_amount_data(ctx, 'C19.shift-amount', ['bumble.sdp', 'bumble.avdtp', 'bumble.avctp', 'bumble.avc', 'bumble.avrcp', 'bumble.rfcomm'])
+
+
+def free_label(ctx):
+    """An AVDTP transaction label is taken only if its slot is free: the slot still holds the future of a transaction whose
+    response has not arrived (the 16 labels are reused round-robin while a slow one is outstanding)."""
+    R, p = ctx.r, ctx.p
+    rule = 'C19.free-label'
+    fn = p.find('bumble.avdtp.Protocol.start_transaction')
+    if fn is None:
+        R.bad(rule, 'bumble.avdtp.Protocol.start_transaction', 'anchor missing')
+        return
+    sts = [s_ for s_ in walk_local(fn) if isinstance(s_, ast.Assign) and isinstance(s_.targets[0], ast.Subscript) and dotted(s_.targets[0].value) == 'self.transaction_results']
+    R.check(len(sts) >= 1, rule, 'bumble.avdtp.Protocol.start_transaction | slot store', f'{len(sts)} store(s)', 'no store into transaction_results', p.loc(fn))
+    for s_ in sts:
+        slot = norm(s_.targets[0])
+        g = [(norm(t), pol) for t, pol in paths.flat_guards(s_, stop=fn)]
+        ok = (f'{slot} is None', True) in g or (f'{slot} is not None', False) in g
+        R.check(ok, rule, 'bumble.avdtp.Protocol.start_transaction | slot is free', f'`{slot} is None` tested', f'`{norm(s_)[:60]}` takes the label without testing that its slot is free: the future of a transaction still waiting under that label is overwritten - its caller never gets its response (which resolves the new transaction instead)', p.loc(s_))
+
+
 RULES = [
+    ('C19.free-label', free_label),
+    ('C19.shift-amount', shift_amount_rule),
     ('C19.transaction-permits', transaction_permits),
     ('C19.avctp-restart', avctp_restart),
     ('C19.sdp-containment', sdp_containment_rule),
